@@ -13,7 +13,7 @@ from ..common import enc_bools, enc_list
 
 RULE = ("minimize-around and minimize-balanced, min=1, repeat in {last, always}: every deterministic test (complete verdict trees) for n <= 4/5 "
         "atoms over bracket-bearing atoms {'{','}','(',')','[','x','{}','}{'} incl. repeated atoms; hash/parity/balance oracle families for n up to 24 on line, "
-        "char and symbol atoms; non-trivial = a run with >= 1 accepted and >= 1 rejected proposal whose result has >= 3 atoms; distinct by "
+        "char and symbol atoms; files of repeated lines over 2-3 letter alphabets (de-duplicated candidates) with prefix/suffix/count/hash tests; non-trivial = a run with >= 1 accepted and >= 1 rejected proposal whose result has >= 3 atoms; distinct by "
         "(strategy, options, atoms, verdict table)")
 
 ATOMS = [b"{\n", b"}\n", b"(\n", b")\n", b"[\n", b"x\n", b"{}\n", b"}{\n"]
@@ -178,6 +178,30 @@ def families(ctx, reps, do_model=True):
                     one(ctx, name, cfg, f, lambda k, c, fn=fn: fn(c), do_model, total_fn=fn, label="family")
 
 
+def repeats(ctx, reps, do_model_every=10):
+    """files with REPEATED atom contents (3-letter alphabets), so that different deletions give the same bytes and the
+    de-duplication of candidates takes part in the passes (a skipped candidate directly after an accepted one)"""
+    rng = ctx.rng
+    for i in range(reps):
+        name = ("minimize-around", "minimize-balanced")[i % 2]
+        pool = rng.choice([[b"x\n", b"o\n", b"y\n"], [b"x\n", b"o\n"], [b"{\n", b"}\n", b"o\n"], [b"(\n", b"o\n", b")\n", b"o\n"]])
+        n = rng.randrange(4, 9)
+        parts = [rng.choice(pool) for _ in range(n)]
+        f = (b"", parts, [True] * n, b"")
+        whole = b"".join(parts)
+        k = rng.randrange(1, 4)
+        head = b"".join(parts[:k])
+        salt = bytes([rng.randrange(256) for _ in range(3)])
+        thr = rng.randrange(60, 200)
+        fns = [lambda c: c.startswith(head),
+               lambda c: c.endswith(b"".join(parts[-k:])),
+               lambda c: hashlib.blake2b(c + salt, digest_size=1).digest()[0] < thr or c == whole,
+               lambda c: c.count(pool[0]) >= k]
+        cfg = CFGS[i % len(CFGS)]
+        for fn in fns:
+            one(ctx, name, cfg, f, lambda k_, c, fn=fn: fn(c), do_model=(i % do_model_every == 0), total_fn=fn, label="repeats")
+
+
 def scoped_oracle(content):
     """a call `crash();` and a well-formed block must exist; `crash();` inside a block needs `setup();` before that block"""
     depth, block, setup, crashed = 0, False, False, False
@@ -255,6 +279,7 @@ def search(ctx):
     move_runs(ctx, 60)
     trees(ctx, 4, 600, 30, do_model=False)
     families(ctx, 40, do_model=False)
+    repeats(ctx, 6000, do_model_every=10**9)
 
 
 def run(ctx) -> int:
@@ -264,6 +289,7 @@ def run(ctx) -> int:
     if complete:
         ctx.exhaustive.append("every deterministic test (complete verdict tree) for the listed arrangements of n <= 4 (quick) / 5 (thorough) bracket-bearing atoms")
     families(ctx, 60 if ctx.thorough else 20)
+    repeats(ctx, 12000 if ctx.thorough else 1500)
     move_runs(ctx, 120 if ctx.thorough else 30)
     return common.decide(ctx, proof, RULE, search=search,
                          assumptions=["the fixpoint clauses are checked by the monitor on the real code and tied to the Lean models of the two passes by "
